@@ -6,7 +6,7 @@ import glob, os, re, subprocess, sys, shutil
 out, wt = sys.argv[1], sys.argv[2]
 PKG = {"engine": "pkg/engine", "storage": "pkg/engine/storage", "replication": "pkg/replication", "replication_test": "pkg/replication",
        "compaction": "pkg/compaction", "wal": "pkg/wal", "memtable": "pkg/memtable", "sstable": "pkg/sstable", "transaction": "pkg/transaction",
-       "engine_test": "pkg/engine", "service": "pkg/grpc/service", "config": "pkg/config"}
+       "engine_test": "pkg/engine", "block": "pkg/sstable/block", "footer": "pkg/sstable/footer", "bloom_filter": "pkg/bloom_filter", "iterator": "pkg/engine/iterator", "common": "pkg/common", "stats": "pkg/stats", "service": "pkg/grpc/service", "config": "pkg/config"}
 env = dict(os.environ, GOFLAGS="-mod=mod", GOPROXY="off")
 for k in ("GOTOOLCHAIN", "GOSUMDB"):
     env.pop(k, None)
